@@ -300,23 +300,49 @@ func (c *Ctx) confinementAndPublication() {
 			}
 		}
 	}
-	var pubs []ssa.Instruction
-	for _, call := range ir.Calls(r.Start) {
-		if _, isGo := call.(*ssa.Go); isGo || ir.IsMethod(call.Common(), pkgTopics, "Manager", "Subscribe") {
-			pubs = append(pubs, call)
+	// publication points: the go statements and the registration of the connection's callback in the shared tree, in
+	// start itself or in a helper that only start calls (the call of such a helper is then a publication point too)
+	startHelper := func(f *ssa.Function) ssa.CallInstruction {
+		if f == nil || f == r.Start || recvNamed(f) != "service" {
+			return nil
 		}
+		if site := c.singleCaller(f); site != nil && site.Parent() == r.Start {
+			return site
+		}
+		return nil
 	}
+	var pubsIn func(f *ssa.Function, d int) []ssa.Instruction
+	pubsIn = func(f *ssa.Function, d int) []ssa.Instruction {
+		var out []ssa.Instruction
+		for _, call := range ir.Calls(f) {
+			if _, isGo := call.(*ssa.Go); isGo || ir.IsMethod(call.Common(), pkgTopics, "Manager", "Subscribe") {
+				out = append(out, call)
+				continue
+			}
+			if h := call.Common().StaticCallee(); d == 0 && h != nil && startHelper(h) != nil && len(pubsIn(h, 1)) > 0 {
+				out = append(out, call)
+			}
+		}
+		return out
+	}
+	pubs := pubsIn(r.Start, 0)
 	prePublication := func(a fieldAccess) bool {
 		if cons[a.Fn] {
 			return true
 		}
-		if a.Fn == r.Start {
-			for _, p := range pubs {
-				if ir.CanReach(p, a.Instr) {
+		before := func(ps []ssa.Instruction, in ssa.Instruction) bool {
+			for _, p := range ps {
+				if p != in && ir.CanReach(p, in) {
 					return false
 				}
 			}
 			return true
+		}
+		if a.Fn == r.Start {
+			return before(pubs, a.Instr)
+		}
+		if site := startHelper(a.Fn); site != nil {
+			return before(pubsIn(a.Fn, 1), a.Instr) && before(pubs, site)
 		}
 		return false
 	}
